@@ -89,6 +89,9 @@ def mk(kind, plen, style_state):
         o.style.update(opacity=0.7)
         o.style.model3d.add_trace(backend="generic", constructor="Scatter3d",
                                   kwargs={"x": [0, 1], "y": [0, 1], "z": [0, 1]}, show=True)
+        o.style.model3d.add_trace(backend="matplotlib", constructor="plot",
+                                  args=(np.array([0.0, 1.0]), np.array([0.0, 1.0]), np.array([0.0, 2.0])),
+                                  kwargs={"ls": "--", "c": np.array([1.0, 0.0, 0.0])}, show=False)
     return o
 
 
@@ -247,14 +250,30 @@ def copy_kwargs(kind, name, orig):
     if name == "style_dict":
         d = {"opacity": 0.25, "path": {"line": {"width": 3}}}
         return {"style": d}, {}, [d]
+    if name in REJECTED_KW:
+        return dict(REJECTED_KW[name]), {}, []
+    if name == "bad_uncopyable":  # something inside the object cannot be deep-copied: copy() raises
+        orig.style.model3d.add_trace(backend="generic", constructor="Scatter3d", kwargs={"x": (i for i in range(3))}, show=False)
+        return {}, {}, []
     raise AssertionError(name)
+
+
+REJECTED_KW = {"bad_position": {"position": (1, 2)}, "bad_orientation": {"orientation": "x"},
+               "bad_style": {"style_nonexistent": 1}, "bad_late": {"style_label": "ok", "position": "bad"}}
 
 
 COPY_KW = ["none", "position", "position_ndarray", "position_from_getter", "orientation", "excitation_ndarray",
            "geometry_ndarray", "geometry_from_getter", "style_label", "style_color", "style_dict"]
+COPY_KW_REJECTED = list(REJECTED_KW) + ["bad_uncopyable"]
 
 
 # ------------------------------------------------------------------ mutations
+def _bump_arrays(trace):
+    for a in list(trace.args or ()) + list(trace.kwargs.values() if isinstance(trace.kwargs, dict) else ()):
+        if isinstance(a, np.ndarray):
+            a += 1.0
+
+
 def mutations(kind):
     """name -> callable(obj). Applied to one side; the other side must not change."""
     import magpylib as magpy
@@ -295,6 +314,7 @@ def mutations(kind):
         "style_model3d_add": lambda o: o.style.model3d.add_trace(backend="generic", constructor="Scatter3d", kwargs={"x": [5]}),
         "style_model3d_edit": lambda o: [setattr(t, "show", not t.show) or t.kwargs.update(x=[42]) if isinstance(t.kwargs, dict) else None
                                           for t in o.style.model3d.data],
+        "style_model3d_arrays_inplace": lambda o: [_bump_arrays(t) for t in o.style.model3d.data],
         "second_copy": lambda o: o.copy(position=(3, 3, 3)).move((1, 1, 1)),
         "parent_new": lambda o: magpy.Collection(o, override_parent=True),
         "parent_none": lambda o: setattr(o, "parent", None),
@@ -387,6 +407,8 @@ def run_case(case):
     if ck is None:
         return {"skipped": True, "problems": []}
     kw, expect, arrs = ck
+    if kwname == "bad_uncopyable":
+        copy_kwargs(kind, kwname, twin)
     materialise(twin, twin_parent)
     sig_twin = deep_sig(twin)
     sig_twin_parent = deep_sig(twin_parent) if twin_parent is not None else None
@@ -395,6 +417,21 @@ def run_case(case):
     label0 = twin.style.label
     arrs0 = [deep_sig(a) for a in arrs]
     problems = []
+    if kwname in COPY_KW_REJECTED:
+        # a copy() that raises must leave the original, its parent link and its parent exactly as they were
+        try:
+            orig.copy(**kw)
+            return {"problems": ["copy with an invalid keyword / uncopyable content returned normally"], "stage": "copy"}
+        except Exception as e:
+            outcome = type(e).__name__
+        if parent is not None and (orig._parent is not parent or sum(1 for c in parent._children if c is orig) != 1):
+            problems.append("failed copy broke the original's parent link")
+        materialise(orig, parent)
+        if deep_sig(orig) != sig_twin:
+            problems.append("failed copy changed the original")
+        if parent is not None and deep_sig(parent) != sig_twin_parent:
+            problems.append("failed copy changed the original's parent")
+        return {"problems": problems, "stage": "copy", "mut_outcome": "rejected-copy:" + outcome}
     try:
         cp = orig.copy(**kw)
     except Exception as e:
@@ -492,6 +529,11 @@ def enumerate_cases(tier):
         for plen in plens:
             for sstate in STYLE_STATES:
                 for par in PARENTS:
+                    for kw in COPY_KW_REJECTED:
+                        if kw == "bad_uncopyable" and sstate != "materialised":
+                            continue
+                        cases.append({"kind": kind, "plen": plen, "style": sstate, "parent": par, "kw": kw,
+                                      "mut": "none", "side": "orig"})
                     for kw in COPY_KW:
                         full = tier == "thorough" or (
                             kw in ("none", "position_ndarray", "position_from_getter", "geometry_from_getter", "style_dict")
